@@ -177,6 +177,8 @@ class Run:
                         else:
                             if 'harness_error' in ev and str(ev['harness_error']).startswith('unknown schema id'):
                                 self.count('ops_skipped_because_their_schema_was_rejected')
+                            elif 'harness_error' in ev and str(ev['harness_error']).startswith('not json'):
+                                self.count('texts_not_json_for_parse(Value)_entry')
                             elif 'harness_error' in ev:
                                 self.inconc('harness error on op %s: %s' % (ev.get('id'), ev['harness_error']))
                             events[ev.get('id')] = ev
